@@ -1,8 +1,877 @@
-//! C08 — stub, to be written.
+//! C08 — gcno/gcda counts agree with llvm-cov gcov.
+//! (1) generated C programs compiled with `clang-14 --coverage`, run with 0–4 argument profiles;
+//!     `Gcno::compute` on the notes and the gcda files (one per run, and the merged one) is compared
+//!     with an independent reader of `llvm-cov-14 gcov -b` text output: per-line counts, instrumented
+//!     line set, function executed flags. CHECKED, not proved: llvm-cov is an external program.
+//! (2) the same files, decoded by an independent decoder, go through the Lean model (`gm_c08`).
+//! (3) synthetic CFGs whose on-tree arcs form a spanning tree, with flows from random walks: the
+//!     arc counters recovered by `count_on_tree` must be the generated flow (oracle for
+//!     C08_flow_recovered), block counts the block inflow, single-block lines the block count; tie
+//!     of `state`/`compute`/`tree` with the model.
+#[path = "../../c15/src/gcno.rs"]
+mod gcno;
 use corrlib::*;
+use gcno::*;
+use serde_json::{json, Value};
+use std::collections::BTreeMap;
+use std::path::{Path, PathBuf};
+use std::process::Command;
 
-pub fn run(_rep: &mut Report) {}
-pub fn replay(_rep: &mut Report, _case: &serde_json::Value) {}
+// ---------------------------------------------------------------------------------------------
+// C program generator
+
+struct PGen<'a> {
+    rng: &'a mut Rng,
+    lines: Vec<String>,
+    cur: String,
+    nfun: usize,
+    /// loop variable counter (unique names)
+    uniq: u32,
+    /// calls to `helper` allowed (not inside the header itself)
+    calls_helper: bool,
+}
+
+impl<'a> PGen<'a> {
+    fn emit(&mut self, s: &str) {
+        // several statements per line now and then
+        if !self.cur.is_empty() && self.rng.chance(1, 3) && self.cur.len() < 90 {
+            self.cur.push(' ');
+            self.cur.push_str(s);
+        } else {
+            self.flush();
+            self.cur = s.to_string();
+        }
+    }
+    fn flush(&mut self) {
+        if !self.cur.is_empty() {
+            let c = std::mem::take(&mut self.cur);
+            self.lines.push(c);
+        }
+    }
+    fn nl(&mut self, s: &str) {
+        self.flush();
+        self.lines.push(s.to_string());
+    }
+    fn atom(&mut self, vars: &[String]) -> String {
+        if self.rng.chance(1, 4) {
+            format!("{}", self.rng.below(5))
+        } else {
+            self.rng.pick(vars).clone()
+        }
+    }
+    fn cmp(&mut self, vars: &[String]) -> String {
+        let a = self.atom(vars);
+        let b = if self.rng.chance(1, 2) { format!("{}", self.rng.below(6)) } else { self.atom(vars) };
+        let op = *self.rng.pick(&["<", ">", "==", "!=", "<=", ">="]);
+        if self.rng.chance(1, 6) {
+            format!("({} % 3)", a)
+        } else {
+            format!("{} {} {}", a, op, b)
+        }
+    }
+    fn cond(&mut self, vars: &[String], depth: u32) -> String {
+        match if depth == 0 { 0 } else { self.rng.below(5) } {
+            1 => format!("{} && {}", self.cond(vars, depth - 1), self.cond(vars, depth - 1)),
+            2 => format!("({} || {})", self.cond(vars, depth - 1), self.cond(vars, depth - 1)),
+            3 => format!("!({})", self.cond(vars, depth - 1)),
+            _ => self.cmp(vars),
+        }
+    }
+    fn expr(&mut self, vars: &[String], fidx: usize) -> String {
+        match self.rng.below(7) {
+            0 => {
+                let c = self.cond(vars, 1);
+                format!("({} ? {} : {})", c, self.atom(vars), self.atom(vars))
+            }
+            1 if fidx > 0 => {
+                let callee = self.rng.below(fidx as u64);
+                format!("f{}({}, {})", callee, self.atom(vars), self.atom(vars))
+            }
+            2 if self.calls_helper => format!("helper({})", self.atom(vars)),
+            3 => format!("({} + {})", self.atom(vars), self.atom(vars)),
+            _ => self.atom(vars),
+        }
+    }
+    fn simple(&mut self, vars: &[String], fidx: usize) -> String {
+        let e = self.expr(vars, fidx);
+        match self.rng.below(4) {
+            0 => "g++;".to_string(),
+            1 => format!("r = (r + {}) % 1000;", e),
+            2 => format!("r = ({} * 3 + r) % 997;", e),
+            _ => format!("r += {} > 2;", e),
+        }
+    }
+    fn block(&mut self, vars: &mut Vec<String>, depth: u32, fidx: usize, in_loop: bool) {
+        let n = self.rng.range(1, 3);
+        for _ in 0..n {
+            self.stmt(vars, depth, fidx, in_loop);
+        }
+    }
+    fn stmt(&mut self, vars: &mut Vec<String>, depth: u32, fidx: usize, in_loop: bool) {
+        let k = if depth == 0 { self.rng.below(3) } else { self.rng.below(12) };
+        match k {
+            0 | 1 | 2 => {
+                let s = self.simple(vars, fidx);
+                self.emit(&s);
+            }
+            3 | 4 => {
+                let c = self.cond(vars, 2);
+                if self.rng.chance(1, 3) {
+                    // one-line if/else
+                    let s1 = self.simple(vars, fidx);
+                    let s2 = self.simple(vars, fidx);
+                    if self.rng.chance(1, 2) {
+                        self.emit(&format!("if ({}) {} else {}", c, s1, s2));
+                    } else {
+                        self.emit(&format!("if ({}) {}", c, s1));
+                    }
+                } else {
+                    self.emit(&format!("if ({}) {{", c));
+                    self.block(vars, depth - 1, fidx, in_loop);
+                    if self.rng.chance(1, 2) {
+                        self.emit("} else {");
+                        self.block(vars, depth - 1, fidx, in_loop);
+                    } else if self.rng.chance(1, 4) {
+                        let c2 = self.cond(vars, 1);
+                        self.emit(&format!("}} else if ({}) {{", c2));
+                        self.block(vars, depth - 1, fidx, in_loop);
+                    }
+                    self.emit("}");
+                }
+            }
+            5 => {
+                self.uniq += 1;
+                let v = format!("i{}", self.uniq);
+                let bound = format!("({} % 4) + {}", self.atom(vars), self.rng.below(3));
+                self.emit(&format!("for (int {v} = 0; {v} < {bound}; {v}++) {{", v = v, bound = bound));
+                vars.push(v.clone());
+                self.block(vars, depth - 1, fidx, true);
+                vars.pop();
+                self.emit("}");
+            }
+            6 => {
+                self.uniq += 1;
+                let v = format!("w{}", self.uniq);
+                let a0 = self.atom(vars);
+                self.emit(&format!("{{ int {} = {} % 4;", v, a0));
+                self.emit(&format!("while ({}-- > 0) {{", v));
+                vars.push(v.clone());
+                self.block(vars, depth - 1, fidx, true);
+                vars.pop();
+                self.emit("} }");
+            }
+            7 => {
+                self.uniq += 1;
+                let v = format!("d{}", self.uniq);
+                self.emit(&format!("{{ int {} = 0; do {{", v));
+                vars.push(v.clone());
+                self.block(vars, depth - 1, fidx, true);
+                vars.pop();
+                let a0 = self.atom(vars);
+                self.emit(&format!("}} while (++{v} < ({a} % 3)); }}", v = v, a = a0));
+            }
+            8 => {
+                let e = self.atom(vars);
+                self.emit(&format!("switch (({} + r) % 4) {{", e));
+                let ncase = self.rng.range(1, 3);
+                for c in 0..ncase {
+                    self.emit(&format!("case {}:", c));
+                    self.block(vars, depth - 1, fidx, in_loop);
+                    if self.rng.chance(2, 3) {
+                        self.emit("break;");
+                    }
+                }
+                if self.rng.chance(2, 3) {
+                    self.emit("default:");
+                    self.block(vars, depth - 1, fidx, in_loop);
+                }
+                self.emit("}");
+            }
+            9 => {
+                let c = self.cond(vars, 1);
+                self.emit(&format!("if ({}) return r;", c));
+            }
+            10 if in_loop => {
+                let c = self.cond(vars, 1);
+                let w = if self.rng.chance(1, 2) { "break" } else { "continue" };
+                self.emit(&format!("if ({}) {};", c, w));
+            }
+            _ => {
+                let s = self.simple(vars, fidx);
+                self.emit(&s);
+            }
+        }
+    }
+}
+
+struct Program {
+    main_c: String,
+    inc_h: String,
+}
+
+fn gen_program(rng: &mut Rng) -> Program {
+    let nfun = rng.range(1, 3) as usize;
+    let mut g = PGen { rng, lines: vec![], cur: String::new(), nfun, uniq: 0, calls_helper: true };
+    g.nl("#include <stdlib.h>");
+    g.nl("int g;");
+    g.nl("#include \"inc.h\"");
+    for f in 0..g.nfun {
+        if g.rng.chance(1, 2) {
+            g.nl(&format!("int f{}(int a, int b) {{", f));
+        } else {
+            g.nl(&format!("int f{}(int a, int b)", f));
+            g.nl("{");
+        }
+        g.nl("  int r = 0;");
+        let mut vars = vec!["a".to_string(), "b".to_string(), "r".to_string()];
+        let depth = g.rng.range(1, 3) as u32;
+        let n = g.rng.range(2, 5);
+        for _ in 0..n {
+            g.stmt(&mut vars, depth, f, false);
+        }
+        g.flush();
+        if g.rng.chance(1, 3) {
+            g.nl("  return r; }");
+        } else {
+            g.nl("  return r;");
+            g.nl("}");
+        }
+        if g.rng.chance(1, 2) {
+            g.nl("");
+        }
+    }
+    g.nl("int main(int argc, char **argv) {");
+    g.nl("  int a = argc > 1 ? atoi(argv[1]) : 0; int b = argc > 2 ? atoi(argv[2]) : 0;");
+    g.nl("  int r = 0;");
+    let mut vars = vec!["a".to_string(), "b".to_string(), "r".to_string()];
+    let nf = g.nfun;
+    for f in 0..nf {
+        match g.rng.below(4) {
+            0 => {} // never called from main
+            1 => {
+                let c = g.cond(&vars, 1);
+                g.emit(&format!("if ({}) r += f{}(a, b);", c, f));
+            }
+            _ => g.emit(&format!("r += f{}(b, a);", f)),
+        }
+    }
+    let n = g.rng.range(2, 4);
+    for _ in 0..n {
+        g.stmt(&mut vars, 2, nf, false);
+    }
+    g.flush();
+    g.nl("  return (r + g) & 1;");
+    g.nl("}");
+    let main_c = g.lines.join("\n") + "\n";
+
+    // the header: a function defined in an included file
+    let mut h = PGen { rng: g.rng, lines: vec![], cur: String::new(), nfun: 0, uniq: 100, calls_helper: false };
+    h.nl("/* included header */");
+    h.nl("static int helper(int a) {");
+    h.nl("  int b = a + 1, r = 0;");
+    let mut vars = vec!["a".to_string(), "b".to_string(), "r".to_string()];
+    h.stmt(&mut vars, 1, 0, false);
+    h.stmt(&mut vars, 1, 0, false);
+    h.flush();
+    h.nl("  return r;");
+    h.nl("}");
+    if h.rng.chance(1, 2) {
+        h.nl("static int helper2(int a) { if (a > 1) return a; return -a; }");
+        h.nl("int use_helper2(int a) { return helper2(a); }");
+    }
+    let inc_h = h.lines.join("\n") + "\n";
+    Program { main_c, inc_h }
+}
+
+// ---------------------------------------------------------------------------------------------
+// independent reader of `llvm-cov gcov` text output
+
+#[derive(Default, Debug, Clone, PartialEq)]
+struct GcovFile {
+    /// line -> count (instrumented lines only)
+    lines: BTreeMap<u32, u64>,
+    /// function -> called count
+    funcs: BTreeMap<String, u64>,
+}
+
+fn parse_gcov_text(text: &str) -> Option<(String, GcovFile)> {
+    let mut source = None;
+    let mut f = GcovFile::default();
+    for line in text.lines() {
+        if let Some(rest) = line.strip_prefix("function ") {
+            // function NAME called N returned …
+            let mut it = rest.split(" called ");
+            let name = it.next()?.to_string();
+            let n: u64 = it.next()?.split(' ').next()?.parse().ok()?;
+            *f.funcs.entry(name).or_insert(0) += n;
+            continue;
+        }
+        if line.starts_with("branch ") || line.starts_with("call ") || line.starts_with("unconditional ") {
+            continue;
+        }
+        let mut parts = line.splitn(3, ':');
+        let (c, l) = (parts.next()?, parts.next()?);
+        let rest = parts.next().unwrap_or("");
+        let lno: u32 = match l.trim().parse() {
+            Ok(n) => n,
+            Err(_) => continue,
+        };
+        if lno == 0 {
+            if let Some(s) = rest.strip_prefix("Source:") {
+                source = Some(s.to_string());
+            }
+            continue;
+        }
+        let c = c.trim().trim_end_matches('*');
+        if c == "-" {
+            continue;
+        }
+        let n: u64 = if c == "#####" || c == "=====" { 0 } else { c.parse().ok()? };
+        // a line listed several times (should not happen in llvm-cov's output): add
+        *f.lines.entry(lno).or_insert(0) += n;
+    }
+    Some((source?, f))
+}
+
+fn of_results(rs: &Results) -> BTreeMap<String, GcovFile> {
+    let mut m = BTreeMap::new();
+    for (k, c) in rs {
+        let mut f = GcovFile::default();
+        for (l, n) in &c.lines {
+            f.lines.insert(*l, *n);
+        }
+        for (n, fun) in &c.functions {
+            f.funcs.insert(n.clone(), fun.executed as u64);
+        }
+        m.insert(k.clone(), f);
+    }
+    m
+}
+
+fn diff_gcov(ours: &BTreeMap<String, GcovFile>, theirs: &BTreeMap<String, GcovFile>) -> Option<String> {
+    let ko: Vec<&String> = ours.keys().collect();
+    let kt: Vec<&String> = theirs.keys().collect();
+    if ko != kt {
+        return Some(format!("files differ: grcov {:?} / llvm-cov {:?}", ko, kt));
+    }
+    for (k, o) in ours {
+        let t = &theirs[k];
+        let lo: Vec<&u32> = o.lines.keys().collect();
+        let lt: Vec<&u32> = t.lines.keys().collect();
+        if lo != lt {
+            return Some(format!("{}: instrumented lines differ: grcov {:?} / llvm-cov {:?}", k, lo, lt));
+        }
+        for (l, n) in &o.lines {
+            if t.lines[l] != *n {
+                return Some(format!("{}:{}: count grcov {} / llvm-cov {}", k, l, n, t.lines[l]));
+            }
+        }
+        let fo: Vec<(&String, bool)> = o.funcs.iter().map(|(n, c)| (n, *c > 0)).collect();
+        let ft: Vec<(&String, bool)> = t.funcs.iter().map(|(n, c)| (n, *c > 0)).collect();
+        if fo != ft {
+            return Some(format!("{}: functions/executed flags differ: grcov {:?} / llvm-cov {:?}", k, fo, ft));
+        }
+    }
+    None
+}
+
+// ---------------------------------------------------------------------------------------------
+
+/// run to completion (5 s limit); false when the program was killed by a signal or timed out
+fn run_in(dir: &Path, prog: &str, args: &[String]) -> bool {
+    let mut child = match Command::new(prog)
+        .args(args)
+        .current_dir(dir)
+        .stdout(std::process::Stdio::null())
+        .stderr(std::process::Stdio::null())
+        .spawn()
+    {
+        Ok(c) => c,
+        Err(_) => return false,
+    };
+    let t0 = std::time::Instant::now();
+    loop {
+        match child.try_wait() {
+            Ok(Some(st)) => return st.code().is_some(),
+            Ok(None) => {
+                if t0.elapsed().as_secs() >= 5 {
+                    let _ = child.kill();
+                    let _ = child.wait();
+                    return false;
+                }
+                std::thread::sleep(std::time::Duration::from_millis(2));
+            }
+            Err(_) => return false,
+        }
+    }
+}
+
+struct Compiled {
+    dir: PathBuf,
+    gcno: Vec<u8>,
+    /// one gcda per run
+    singles: Vec<Vec<u8>>,
+    /// the gcda accumulated over all runs (None when there was no run)
+    merged: Option<Vec<u8>>,
+    gcov: BTreeMap<String, GcovFile>,
+}
+
+fn build_and_run(dir: &Path, p: &Program, profiles: &[Vec<String>]) -> Result<Compiled, String> {
+    let _ = std::fs::remove_dir_all(dir);
+    std::fs::create_dir_all(dir).map_err(|e| e.to_string())?;
+    std::fs::write(dir.join("prog.c"), &p.main_c).map_err(|e| e.to_string())?;
+    std::fs::write(dir.join("inc.h"), &p.inc_h).map_err(|e| e.to_string())?;
+    let out = Command::new("clang-14")
+        .args(["--coverage", "-O0", "-w", "prog.c", "-o", "prog"])
+        .current_dir(dir)
+        .output()
+        .map_err(|e| format!("clang-14: {}", e))?;
+    if !out.status.success() {
+        return Err(format!("clang-14 failed: {}", String::from_utf8_lossy(&out.stderr)));
+    }
+    let gcno = std::fs::read(dir.join("prog.gcno")).map_err(|e| e.to_string())?;
+    let exe = dir.join("prog");
+    let exe = exe.to_str().unwrap();
+    let gcda_path = dir.join("prog.gcda");
+    let mut singles = Vec::new();
+    for args in profiles {
+        let _ = std::fs::remove_file(&gcda_path);
+        if !run_in(dir, exe, args) {
+            return Err("generated program crashed".into());
+        }
+        singles.push(std::fs::read(&gcda_path).map_err(|e| format!("no gcda after a run: {}", e))?);
+    }
+    let _ = std::fs::remove_file(&gcda_path);
+    for args in profiles {
+        run_in(dir, exe, args);
+    }
+    let merged = std::fs::read(&gcda_path).ok();
+    let target = if merged.is_some() { "prog.gcda" } else { "prog.gcno" };
+    let out = Command::new("llvm-cov-14")
+        .args(["gcov", "-b", target])
+        .current_dir(dir)
+        .output()
+        .map_err(|e| format!("llvm-cov-14: {}", e))?;
+    if !out.status.success() {
+        return Err(format!("llvm-cov-14 gcov failed: {}", String::from_utf8_lossy(&out.stderr)));
+    }
+    let mut gcov = BTreeMap::new();
+    let mut names: Vec<PathBuf> = std::fs::read_dir(dir)
+        .map_err(|e| e.to_string())?
+        .filter_map(|e| e.ok())
+        .map(|e| e.path())
+        .filter(|p| p.extension().map(|e| e == "gcov").unwrap_or(false))
+        .collect();
+    names.sort();
+    for n in names {
+        let text = String::from_utf8_lossy(&std::fs::read(&n).map_err(|e| e.to_string())?).to_string();
+        match parse_gcov_text(&text) {
+            Some((src, f)) => {
+                gcov.insert(src, f);
+            }
+            None => return Err(format!("cannot read {}", n.display())),
+        }
+    }
+    Ok(Compiled { dir: dir.to_path_buf(), gcno, singles, merged, gcov })
+}
+
+fn compiled_stream(rep: &mut Report, rng: &mut Rng, reqs: &mut Vec<String>, pend: &mut Vec<(String, Value, String)>) {
+    let n = rep.budget(10, 40);
+    for i in 0..n {
+        let p = gen_program(rng);
+        let nprof = rng.below(5) as usize;
+        let profiles: Vec<Vec<String>> = (0..nprof)
+            .map(|_| {
+                let k = rng.below(3);
+                (0..k).map(|_| format!("{}", rng.below(10))).collect()
+            })
+            .collect();
+        let dir = rep.workdir.join(format!("p{}", i));
+        let case = json!({"op": "program", "prog_c": p.main_c, "inc_h": p.inc_h, "profiles": profiles});
+        let c = match build_and_run(&dir, &p, &profiles) {
+            Ok(c) => c,
+            Err(e) => {
+                rep.count("program.skipped");
+                rep.notes.push(format!("program {} skipped: {}", i, e.lines().next().unwrap_or("")));
+                continue;
+            }
+        };
+        rep.count(&format!("program.runs={}", nprof));
+        rep.count_n("program.source_lines", p.main_c.lines().count() as u64);
+        check_compiled(rep, &c, &case, reqs, pend, i == 0);
+        if !rep.thorough() {
+            let _ = std::fs::remove_file(c.dir.join("prog"));
+        } else {
+            let _ = std::fs::remove_dir_all(&c.dir);
+        }
+    }
+}
+
+fn check_compiled(
+    rep: &mut Report,
+    c: &Compiled,
+    case: &Value,
+    reqs: &mut Vec<String>,
+    pend: &mut Vec<(String, Value, String)>,
+    sample: bool,
+) {
+    // grcov on one gcda per run, and on the merged gcda
+    let mut variants: Vec<(&str, Vec<Vec<u8>>)> = vec![("per-run gcda files", c.singles.clone())];
+    if let Some(m) = &c.merged {
+        variants.push(("merged gcda", vec![m.clone()]));
+    }
+    let mut nontrivial = false;
+    for (what, ds) in &variants {
+        let r = run_compute(&c.gcno, ds, true);
+        match &r {
+            Ok(rs) => {
+                let ours = of_results(rs);
+                nontrivial |= ours.values().any(|f| f.lines.values().any(|&n| n > 0));
+                for f in ours.values() {
+                    rep.count_n("program.instrumented_lines", f.lines.len() as u64);
+                    rep.count_n("program.functions", f.funcs.len() as u64);
+                }
+                if let Some(d) = diff_gcov(&ours, &c.gcov) {
+                    let mut cj = case.clone();
+                    cj["variant"] = json!(what);
+                    rep.fail("oracle", None, format!("Gcno::compute ({}) differs from llvm-cov gcov: {}", what, d), cj);
+                }
+                if sample {
+                    rep.sample(json!({"program_lines": case["prog_c"].as_str().unwrap_or("").lines().count(),
+                        "variant": what, "grcov": show_results(rs).chars().take(400).collect::<String>()}));
+                }
+            }
+            Err(e) => {
+                let mut cj = case.clone();
+                cj["variant"] = json!(what);
+                rep.fail("oracle", None, format!("Gcno::compute ({}) fails on clang output: {}", what, e), cj);
+            }
+        }
+        // the model on the same files
+        if let Some(notes) = decode_gcno(&c.gcno) {
+            let gd: Option<Vec<Gcda>> = ds.iter().map(|b| decode_gcda(b)).collect();
+            if let Some(gd) = gd {
+                let refs: Vec<&Gcda> = gd.iter().collect();
+                let req = compute_req(&notes, &refs, true);
+                rep.case(&req, nontrivial);
+                reqs.push(req);
+                let mut cj = case.clone();
+                cj["variant"] = json!(what);
+                pend.push((show_compute(&r), cj, "compute".into()));
+                if *what == "per-run gcda files" {
+                    reqs.push(format!("tree {}", notes_text(&notes)));
+                    pend.push(("tree".into(), case.clone(), "tree".into()));
+                    reqs.push(state_req(&notes, &refs));
+                    pend.push((run_state(&c.gcno, ds), case.clone(), "state".into()));
+                }
+            } else {
+                rep.count("program.undecodable_gcda");
+            }
+        } else {
+            rep.count("program.undecodable_gcno");
+        }
+    }
+}
+
+// ---------------------------------------------------------------------------------------------
+// synthetic spanning-tree CFGs: flow recovery
+
+/// expected `state` text for a function, from the generator's knowledge (None when arcs are
+/// ambiguous to lay out, i.e. never: we compare multisets per (src,dst) instead)
+fn flow_oracle(f: &GenFn, total: &[u64], walks: u64, state_fn: &str, version: u32) -> Option<String> {
+    // state_fn: blocks joined by '|': "<counter>:S..:D[*]dst=cnt,..:L.."
+    let blocks: Vec<&str> = state_fn.split('|').collect();
+    if blocks.len() != f.nblocks as usize {
+        return Some(format!("{} blocks in the dump, {} generated", blocks.len(), f.nblocks));
+    }
+    let _ = version;
+    for (b, txt) in blocks.iter().enumerate() {
+        let parts: Vec<&str> = txt.split(':').collect();
+        let counter: u64 = parts[0].parse().ok()?;
+        let mut got: Vec<(u32, u64)> = parts[2][1..]
+            .split(',')
+            .filter(|e| !e.is_empty())
+            .map(|e| {
+                let (d, c) = e.trim_start_matches('*').split_once('=').unwrap();
+                (d.parse().unwrap(), c.parse().unwrap())
+            })
+            .collect();
+        let mut want: Vec<(u32, u64)> = (0..f.arcs.len())
+            .filter(|&i| f.arcs[i].0 == b as u32)
+            .map(|i| (f.arcs[i].1, total[i]))
+            .collect();
+        if b as u32 == f.sink {
+            want.push((0, walks));
+        }
+        got.sort();
+        want.sort();
+        if got != want {
+            return Some(format!("block {}: arc counts {:?}, the flow is {:?}", b, got, want));
+        }
+        let outflow: u64 = want.iter().map(|x| x.1).sum();
+        if counter != outflow {
+            return Some(format!("block {}: counter {} but its flow is {}", b, counter, outflow));
+        }
+    }
+    None
+}
+
+fn synthetic_stream(rep: &mut Report, rng: &mut Rng, reqs: &mut Vec<String>, pend: &mut Vec<(String, Value, String)>) {
+    let n = rep.budget(300, 30);
+    for i in 0..n {
+        let version = if rng.chance(1, 3) { 42 } else { 48 };
+        let checksum = rng.next() as u32;
+        let nf = rng.range(1, 2) as u32;
+        let mut fns: Vec<GenFn> = Vec::new();
+        while fns.len() < nf as usize {
+            let small = rng.chance(1, 3);
+            let mut f = gen_fn(rng, version, fns.len() as u32, small);
+            if !f.tree_ok {
+                continue;
+            }
+            // distinct files per function keep the per-line expectation simple
+            f.file = format!("f{}.c", fns.len()).into_bytes();
+            for (_, items) in f.lines.iter_mut() {
+                for it in items.iter_mut() {
+                    if let LineItem::File(x) = it {
+                        if x != b"other.h" {
+                            *x = f.file.clone();
+                        }
+                    }
+                }
+            }
+            fns.push(f);
+        }
+        let mut recs = Vec::new();
+        for f in &fns {
+            recs.extend(f.recs());
+        }
+        let notes = Notes { version, checksum, recs };
+        let gcno = encode_gcno(&notes);
+        let nd = rng.below(4) as usize;
+        let mut gcdas = Vec::new();
+        let mut total: Vec<Vec<u64>> = fns.iter().map(|f| vec![0; f.arcs.len()]).collect();
+        let mut walks_total = vec![0u64; fns.len()];
+        for _ in 0..nd {
+            let mut parts: Vec<(&GenFn, Vec<u64>)> = Vec::new();
+            for (fi, f) in fns.iter().enumerate() {
+                let walks = if rng.chance(1, 5) { 0 } else { rng.range(1, 6) };
+                let scale = if rng.chance(1, 12) { rng.range(2, 1 << 40) } else { 1 };
+                let flow = gen_flow(rng, f, walks, scale);
+                for (t, v) in total[fi].iter_mut().zip(flow.iter()) {
+                    *t += *v;
+                }
+                walks_total[fi] += flow[0];
+                parts.push((f, flow));
+            }
+            gcdas.push(gcda_for(version, checksum, &parts));
+        }
+        let mut er = rng.fork();
+        let bytes: Vec<Vec<u8>> = gcdas.iter().map(|d| encode_gcda(d, &mut er)).collect();
+        let refs: Vec<&Gcda> = gcdas.iter().collect();
+        let case = json!({"op": "synthetic", "gcno": hex(&gcno), "gcdas": bytes.iter().map(|b| hex(b)).collect::<Vec<_>>(),
+                          "model_state_req": state_req(&notes, &refs), "model_compute_req": compute_req(&notes, &refs, true),
+                          "index": i});
+        rep.count(&format!("synthetic.gcdas={}", nd));
+        // oracle on the implementation: recovered flow, block counts
+        let st = run_state(&gcno, &bytes);
+        if let Some(body) = st.strip_prefix("ok ") {
+            let per_fn: Vec<&str> = body.split(';').collect();
+            for (fi, f) in fns.iter().enumerate() {
+                rep.count_n("synthetic.arcs", f.arcs.len() as u64);
+                rep.count_n("synthetic.tree_arcs", f.arcs.iter().filter(|a| a.2 & 1 == 1).count() as u64);
+                if let Some(msg) = flow_oracle(f, &total[fi], walks_total[fi], per_fn.get(fi).copied().unwrap_or(""), version) {
+                    rep.fail("oracle", None, format!("count_on_tree does not recover the flow (function {}): {}", fi, msg), case.clone());
+                }
+            }
+        } else {
+            rep.fail("oracle", None, format!("reading a spanning-tree CFG with a consistent flow fails: {}", st), case.clone());
+        }
+        // single-block lines and executed flags through compute
+        let r = run_compute(&gcno, &bytes, true);
+        if let Ok(rs) = &r {
+            for (fi, f) in fns.iter().enumerate() {
+                let file = String::from_utf8_lossy(&f.file).to_string();
+                let name = String::from_utf8_lossy(&f.name).to_string();
+                let cov = rs.iter().find(|(k, _)| *k == file).map(|(_, c)| c);
+                let executed = walks_total[fi] > 0;
+                if cov.and_then(|c| c.functions.get(&name)).map(|x| x.executed) != Some(executed) {
+                    rep.fail("oracle", None, format!("function {} entered {} times: wrong executed flag", name, walks_total[fi]), case.clone());
+                }
+                if let Some(cov) = cov {
+                    for (l, want) in single_block_lines(f, &total[fi], version) {
+                        let want = if executed { want } else { 0 };
+                        rep.count("synthetic.single_block_lines");
+                        if cov.lines.get(&l) != Some(&want) {
+                            rep.fail(
+                                "oracle",
+                                None,
+                                format!("line {} lives in one block with count {} but is reported as {:?}", l, want, cov.lines.get(&l)),
+                                case.clone(),
+                            );
+                        }
+                    }
+                }
+            }
+        }
+        let nt = total.iter().any(|t| t.iter().any(|&v| v > 0));
+        let rq = state_req(&notes, &refs);
+        rep.case(&rq, nt);
+        reqs.push(rq);
+        pend.push((st, case.clone(), "state".into()));
+        reqs.push(compute_req(&notes, &refs, true));
+        pend.push((show_compute(&r), case.clone(), "compute".into()));
+        reqs.push(format!("tree {}", notes_text(&notes)));
+        pend.push((format!("ok {}", "1".repeat(fns.len())), case, "tree-synthetic".into()));
+    }
+}
+
+fn corpus_stream(rep: &mut Report, reqs: &mut Vec<String>, pend: &mut Vec<(String, Value, String)>) {
+    // the LLVM-format pairs shipped with the repository
+    for stem in ["/repo/test/llvm/file", "/repo/test/llvm/file_branch", "/repo/test/llvm/reader", "/repo/test/rust/generics_with_two_parameters"] {
+        let (Ok(gcno), Ok(gcda)) = (std::fs::read(format!("{}.gcno", stem)), std::fs::read(format!("{}.gcda", stem))) else {
+            continue;
+        };
+        let (Some(n), Some(d)) = (decode_gcno(&gcno), decode_gcda(&gcda)) else {
+            rep.count("corpus.undecodable");
+            continue;
+        };
+        rep.count("corpus.pairs");
+        let case = json!({"op": "corpus", "stem": stem});
+        for k in 0..3usize {
+            let ds = vec![gcda.clone(); k];
+            let refs: Vec<&Gcda> = std::iter::repeat(&d).take(k).collect();
+            let rq = compute_req(&n, &refs, true);
+            rep.case(&rq, k > 0);
+            reqs.push(rq);
+            pend.push((show_compute(&run_compute(&gcno, &ds, true)), case.clone(), "compute".into()));
+        }
+        reqs.push(format!("tree {}", notes_text(&n)));
+        pend.push(("tree".into(), case.clone(), "tree".into()));
+    }
+}
+
+fn run_inner(rep: &mut Report) {
+    rep.rule = "programs: generated C (1-3 functions + main + an included header with a function; straight-line, nested \
+                if/else incl. one-line forms, for/while/do loops with break/continue, switch with fall-through, &&/||/!/?:, \
+                early return, several statements per line, calls, a never-called function), clang-14 --coverage -O0, 0-4 runs \
+                with 0-2 numeric arguments; compared with llvm-cov-14 gcov -b text. synthetic: spanning-tree CFGs with \
+                random-walk flows, 0-3 gcda. non-trivial = some line count > 0 (programs) / some arc count > 0 (synthetic); \
+                distinct = distinct canonical model request"
+        .to_string();
+    let mut rng = Rng::new(rep.seed ^ 0xC08);
+    let mut reqs: Vec<String> = Vec::new();
+    let mut pend: Vec<(String, Value, String)> = Vec::new();
+    corpus_stream(rep, &mut reqs, &mut pend);
+    let have_tools = Command::new("clang-14").arg("--version").output().map(|o| o.status.success()).unwrap_or(false)
+        && Command::new("llvm-cov-14").arg("--version").output().map(|o| o.status.success()).unwrap_or(false);
+    if have_tools {
+        compiled_stream(rep, &mut rng, &mut reqs, &mut pend);
+    } else {
+        rep.notes.push("clang-14 / llvm-cov-14 not found: the llvm-cov comparison was NOT run".into());
+        rep.count("program.tools_missing");
+    }
+    let mut srng = Rng::new(rep.seed ^ 0xC08_5);
+    synthetic_stream(rep, &mut srng, &mut reqs, &mut pend);
+
+    let answers = run_model_named("gm_c08", &reqs, &rep.workdir, "gcno");
+    for (i, (impl_out, case, what)) in pend.iter().enumerate() {
+        let cut = |s: &str| if s.len() > 500 { format!("{}…", &s[..500]) } else { s.to_string() };
+        if what == "tree" {
+            // every function clang produced should carry a spanning tree (hypothesis of
+            // C08_flow_recovered): measured, not required
+            let a = &answers[i];
+            rep.count_n("tree.functions_with_certificate", a.matches('1').count() as u64);
+            rep.count_n("tree.functions_without_certificate", a.strip_prefix("ok ").unwrap_or("").matches('0').count() as u64);
+            continue;
+        }
+        if i % 211 == 0 {
+            rep.sample(json!({"request": cut(&reqs[i]), "impl": cut(impl_out), "model": cut(&answers[i])}));
+        }
+        if &answers[i] != impl_out {
+            rep.disagreements_checked += 1;
+            let mut cj = case.clone();
+            cj["impl"] = json!(cut(impl_out));
+            cj["model"] = json!(cut(&answers[i]));
+            cj["request"] = json!(reqs[i]);
+            let msg = if what == "tree-synthetic" {
+                "the spanning-tree certificate check rejects a generated spanning tree".to_string()
+            } else {
+                format!("Gcno::{} differs from the model (theorems C08_* no longer transfer)", what)
+            };
+            rep.fail("disagreement", None, msg, cj);
+        }
+    }
+}
+
+pub fn run(rep: &mut Report) {
+    if let Err(p) = guarded(std::panic::AssertUnwindSafe(|| run_inner(rep))) {
+        eprintln!("harness panicked: {}", p);
+        std::process::exit(2);
+    }
+}
+
+pub fn replay(rep: &mut Report, case: &Value) {
+    match case["op"].as_str().unwrap_or("") {
+        "program" => {
+            let p = Program {
+                main_c: case["prog_c"].as_str().unwrap_or("").to_string(),
+                inc_h: case["inc_h"].as_str().unwrap_or("").to_string(),
+            };
+            let profiles: Vec<Vec<String>> = case["profiles"]
+                .as_array()
+                .map(|a| {
+                    a.iter()
+                        .map(|v| v.as_array().map(|x| x.iter().map(|s| s.as_str().unwrap_or("").to_string()).collect()).unwrap_or_default())
+                        .collect()
+                })
+                .unwrap_or_default();
+            let dir = rep.workdir.join("replay");
+            match build_and_run(&dir, &p, &profiles) {
+                Ok(c) => {
+                    let mut reqs = Vec::new();
+                    let mut pend = Vec::new();
+                    if std::env::var("C08_DEBUG").is_ok() {
+                        eprintln!("STATE {}", run_state(&c.gcno, &c.singles));
+                    }
+                    check_compiled(rep, &c, case, &mut reqs, &mut pend, true);
+                    let answers = run_model_named("gm_c08", &reqs, &rep.workdir, "replay");
+                    for (i, (impl_out, cj, what)) in pend.iter().enumerate() {
+                        if what != "tree" && &answers[i] != impl_out && rep.failures.is_empty() {
+                            rep.disagreements_checked += 1;
+                            rep.fail("disagreement", None, format!("Gcno::{} differs from the model", what), cj.clone());
+                        }
+                    }
+                }
+                Err(e) => rep.notes.push(format!("replay: {}", e)),
+            }
+        }
+        "synthetic" => {
+            let gcno = unhex(case["gcno"].as_str().unwrap_or(""));
+            let gcdas: Vec<Vec<u8>> = case["gcdas"].as_array().map(|a| a.iter().map(|v| unhex(v.as_str().unwrap_or(""))).collect()).unwrap_or_default();
+            let mut reqs = Vec::new();
+            let mut outs = Vec::new();
+            if let Some(r) = case["model_state_req"].as_str() {
+                reqs.push(r.to_string());
+                outs.push(run_state(&gcno, &gcdas));
+            }
+            if let Some(r) = case["model_compute_req"].as_str() {
+                reqs.push(r.to_string());
+                outs.push(show_compute(&run_compute(&gcno, &gcdas, true)));
+            }
+            let answers = run_model_named("gm_c08", &reqs, &rep.workdir, "replay");
+            for i in 0..reqs.len() {
+                rep.case(&reqs[i], true);
+                if answers[i] != outs[i] {
+                    rep.disagreements_checked += 1;
+                    // the model recovers the flow (theorem); a difference means the code does not
+                    rep.fail("oracle", None, format!("impl {} / model {}", outs[i], answers[i]), case.clone());
+                }
+            }
+        }
+        _ => rep.notes.push("corpus cases are re-run by the normal check".into()),
+    }
+}
 
 fn main() {
     corrlib::run_main("C08", run, replay);
